@@ -122,3 +122,475 @@ Theorem model_is_source_C16_ParDot : forall A : Arith, @SrcEqParDot.model_is_sou
 Proof. intros A. exact SrcEqParDot.model_is_source_ParDot_lemma. Qed.
 Check model_is_source_C16_ParDot : forall A : Arith, @SrcEqParDot.model_is_source_ParDot A.
 Print Assumptions model_is_source_C16_ParDot.
+(* ---------------------------------------------------------------------------------------------------------------
+   C16, round two (package sched): the scoped-thread program as a small-step INTERLEAVING semantics
+   (Model/ParSched.v): threads Main, Wk 0 .. Wk (t-1); one transition = one loop iteration / statement of one thread;
+   a join blocks until the worker has published its result; a schedule is a list of thread identifiers and ANY
+   thread that can move may move.  Modelling assumption (Rust's borrow checking of thread::scope, trusted): a worker
+   reads only the two immutable slices it captured and writes only its own accumulator and its own join handle.
+     sched_deterministic          every maximal execution -- any interleaving, ANY arithmetic (floats included) -- has
+                                  exactly len + 3t + 2 steps and ends with main holding pardot t v w
+     sched_terminates             no execution is longer than that, and every partial execution extends to a maximal one
+     sched_no_deadlock            in every reachable state some thread can move, or main has returned pardot t v w
+     sched_no_panic               no reachable state contains a panicked worker or a panicked main thread
+     sched_final_state            the final STATE of every maximal execution is the same (unique normal form)
+     sched_diamond                in every reachable state the steps of two different threads commute
+     sched_parallel_step          pairwise different threads that can all move in a reachable state may move
+                                  simultaneously: fired in any order they all succeed and reach the same state
+     sched_fine_deterministic, sched_fine_refines, sched_fine_terminates, sched_fine_no_deadlock
+                                  the same at the granularity of single loads, multiplications and additions (a worker
+                                  iteration = four transitions): every fine step is a coarse step or a stutter, every
+                                  maximal fine execution has exactly 4 len + 3t + 2 steps and returns pardot t v w
+     sched_refines_run_sched      the order in which the workers finish along a maximal execution is a permutation
+                                  sigma, and main returns run_sched sigma (the coarse scheduler of round one)
+     sched_realises_every_order   conversely every permutation is the completion order of some maximal execution
+     completion_order_refuted     the variant that adds the partial sums in completion order (a shared accumulator:
+                                  seeded mutation C16-4) has two maximal executions with different binary64 results
+     shared_result_in_completion_order, shared_exact, shared_two_workers_float
+                                  what that variant computes, exactly: the partial sums added from 0 in ITS completion
+                                  order (a permutation); over a ring that is still the sequential dot (exact arithmetic
+                                  cannot see the defect); over binary64 with t <= 2 it is bit-identical to pardot on all
+                                  data (the defect needs >= 3 workers and partial sums that round)
+     pardot_any_workers_total     for every t >= 1 and every length: every slice is in range, the result is a value
+     pardot_index_arith_in_range  every usize the spawn loop computes is <= len (no wrap-around in any profile)
+     pardot_outcomes              complete outcome table: size mismatch -> Guard (whatever t); t = 0 -> DivZero
+                                  (`self.size() / num_threads` panics: Rust integer division by zero panics in every
+                                  profile); otherwise a value.  num_cpus::get() >= 1 is TRUSTED (num_cpus 1.16 on
+                                  Linux: min(cgroup quota, popcount of sched_getaffinity) when the quota is > 0, else
+                                  the popcount, else max(1, sysconf); a running thread's affinity mask is never empty)
+     pardot_one_worker_float, pardot_more_workers_float, sched_few_elements_float
+                                  binary64, ALL data (NaN, infinities, signed zeros, overflow): with one worker and with
+                                  more workers than elements (every t > len -- worker counts no machine here offers)
+                                  the threaded product, and every interleaved execution, is bit-identical to dot
+     pardot_forward_error, dot_forward_error, pardot_vs_dot_reassociation, sched_forward_error
+                                  ARBITRARY data, standard model of floating-point arithmetic (relative error <= u per
+                                  + and *, no under/overflow): |fl(pardot) - exact| <= ((1+u)^(len+t+1) - 1) sum|v_i w_i|,
+                                  the sequential dot with exponent len+1, hence the two agree "up to reassociation";
+                                  so does every interleaved execution.  (Round one: searched only.)
+     pardot_forward_error_tight   the same with the exponent (longest chunk) + t + 1, about len/t + t: the threaded
+                                  product has the SMALLER worst-case bound (blocked summation)
+     sched_exact, sched_exact_float   over a ring / on exactly summable binary64 data every maximal execution returns
+                                  the sequential dot (bit for bit).
+   --------------------------------------------------------------------------------------------------------------- *)
+From OV Require Import Model.ParSched Proofs.ParSched Proofs.ParSchedOrder Proofs.ParSchedReal Proofs.ParSchedConfl
+  Proofs.ParSchedRefuted Proofs.ParSchedFloat Proofs.ParSchedTop Proofs.ParSchedMore Proofs.ParSchedWorkers Proofs.ParSchedShared Proofs.ParSchedFine.
+
+Theorem sched_deterministic : forall (A : Arith) (v w : list A) t s0 n s,
+  par_program v w t = Ok s0 -> steps v w t n s0 s -> terminal v w t s ->
+  n = length v + 3 * t + 2 /\ main s = MRet (pardot t v w).
+Proof. intros A v w t s0 n s HP HS HT. exact (sched_deterministic_lemma v w t s0 n s HP HS HT). Qed.
+Check sched_deterministic : forall (A : Arith) (v w : list A) t s0 n s,
+  par_program v w t = Ok s0 -> steps v w t n s0 s -> terminal v w t s ->
+  n = length v + 3 * t + 2 /\ main s = MRet (pardot t v w).
+Print Assumptions sched_deterministic.
+
+(* non-vacuity, at the float instance: three different interleavings of the same program (workers starting while
+   main is still spawning; main joining handle 0 while workers 1 and 2 still run), completion orders 0,1,2 and 0,2,1,
+   each a maximal execution of 3 + 3*3 + 2 = 14 steps; data on which the ORDER of the final additions matters *)
+Example sched_deterministic_nonvacuous :
+  forall sch, sch = cx_real1 \/ sch = cx_real2 \/ sch = cx_real3 ->
+  exists s, par_program cx_v cx_w 3 = Ok (sched_init 3) /\
+    exec cx_v cx_w 3 sch (sched_init 3) = Some s /\ steps cx_v cx_w 3 14 (sched_init 3) s /\
+    terminal cx_v cx_w 3 s /\ main s = MRet (A := AF) (Ok zero).
+Proof. exact cx_real_execution. Qed.
+
+Theorem sched_terminates : forall (A : Arith) (v w : list A) t s0 n s,
+  par_program v w t = Ok s0 -> steps v w t n s0 s ->
+  n <= length v + 3 * t + 2 /\ exists m s', steps v w t m s s' /\ terminal v w t s'.
+Proof. intros A v w t s0 n s HP HS. exact (sched_terminates_lemma v w t s0 n s HP HS). Qed.
+Check sched_terminates : forall (A : Arith) (v w : list A) t s0 n s,
+  par_program v w t = Ok s0 -> steps v w t n s0 s ->
+  n <= length v + 3 * t + 2 /\ exists m s', steps v w t m s s' /\ terminal v w t s'.
+Print Assumptions sched_terminates.
+
+Theorem sched_no_deadlock : forall (A : Arith) (v w : list A) t s0 n s,
+  par_program v w t = Ok s0 -> steps v w t n s0 s ->
+  (exists s', step v w t s s') \/ main s = MRet (pardot t v w).
+Proof. intros A v w t s0 n s HP HS. exact (sched_no_deadlock_lemma v w t s0 n s HP HS). Qed.
+Check sched_no_deadlock : forall (A : Arith) (v w : list A) t s0 n s,
+  par_program v w t = Ok s0 -> steps v w t n s0 s ->
+  (exists s', step v w t s s') \/ main s = MRet (pardot t v w).
+Print Assumptions sched_no_deadlock.
+
+Theorem sched_no_panic : forall (A : Arith) (v w : list A) t s0 n s,
+  par_program v w t = Ok s0 -> steps v w t n s0 s ->
+  (forall k, nth_error (ws s) k <> Some WPanicked) /\ (forall r, main s = MRet r -> exists x, r = Ok x).
+Proof. intros A v w t s0 n s HP HS. exact (sched_no_panic_lemma v w t s0 n s HP HS). Qed.
+Check sched_no_panic : forall (A : Arith) (v w : list A) t s0 n s,
+  par_program v w t = Ok s0 -> steps v w t n s0 s ->
+  (forall k, nth_error (ws s) k <> Some WPanicked) /\ (forall r, main s = MRet r -> exists x, r = Ok x).
+Print Assumptions sched_no_panic.
+
+Theorem sched_final_state : forall (A : Arith) (v w : list A) t s0 n s,
+  par_program v w t = Ok s0 -> steps v w t n s0 s -> terminal v w t s ->
+  s = mkState (MRet (pardot t v w)) (repeat WJoined t).
+Proof. intros A v w t s0 n s HP HS HT. exact (sched_final_state_lemma v w t s0 n s HP HS HT). Qed.
+Check sched_final_state : forall (A : Arith) (v w : list A) t s0 n s,
+  par_program v w t = Ok s0 -> steps v w t n s0 s -> terminal v w t s ->
+  s = mkState (MRet (pardot t v w)) (repeat WJoined t).
+Print Assumptions sched_final_state.
+
+Theorem sched_diamond : forall (A : Arith) (v w : list A) t s0 n s th1 th2 s1 s2,
+  par_program v w t = Ok s0 -> steps v w t n s0 s -> th1 <> th2 ->
+  fire v w t th1 s = Some s1 -> fire v w t th2 s = Some s2 ->
+  exists s', fire v w t th2 s1 = Some s' /\ fire v w t th1 s2 = Some s'.
+Proof.
+  intros A v w t s0 n s th1 th2 s1 s2 HP HS Hne H1 H2.
+  exact (sched_diamond_lemma v w t s0 n s th1 th2 s1 s2 HP HS Hne H1 H2).
+Qed.
+Check sched_diamond : forall (A : Arith) (v w : list A) t s0 n s th1 th2 s1 s2,
+  par_program v w t = Ok s0 -> steps v w t n s0 s -> th1 <> th2 ->
+  fire v w t th1 s = Some s1 -> fire v w t th2 s = Some s2 ->
+  exists s', fire v w t th2 s1 = Some s' /\ fire v w t th1 s2 = Some s'.
+Print Assumptions sched_diamond.
+
+(* non-vacuity: after the three spawns and one step of worker 0, worker 0 (about to publish), worker 1 and main are
+   all able to move *)
+Example sched_diamond_nonvacuous :
+  exists s, steps cx_v cx_w 3 4 (sched_init 3) s /\
+    is_some (fire cx_v cx_w 3 Main s) = true /\ is_some (fire cx_v cx_w 3 (Wk 0) s) = true /\
+    is_some (fire cx_v cx_w 3 (Wk 1) s) = true.
+Proof. exact cx_three_enabled. Qed.
+
+Theorem sched_parallel_step : forall (A : Arith) (v w : list A) t s0 n s l l',
+  par_program v w t = Ok s0 -> steps v w t n s0 s ->
+  NoDup l -> (forall th, In th l -> exists s1, fire v w t th s = Some s1) -> Permutation l l' ->
+  exists s', exec v w t l s = Some s' /\ exec v w t l' s = Some s'.
+Proof.
+  intros A v w t s0 n s l l' HP HS ND HE HPm. exact (sched_parallel_step_lemma v w t s0 n s l l' HP HS ND HE HPm).
+Qed.
+Check sched_parallel_step : forall (A : Arith) (v w : list A) t s0 n s l l',
+  par_program v w t = Ok s0 -> steps v w t n s0 s ->
+  NoDup l -> (forall th, In th l -> exists s1, fire v w t th s = Some s1) -> Permutation l l' ->
+  exists s', exec v w t l s = Some s' /\ exec v w t l' s = Some s'.
+Print Assumptions sched_parallel_step.
+
+Theorem sched_fine_deterministic : forall (A : Arith) (v w : list A) t sch s, 1 <= t -> length v = length w ->
+  exec_fine v w t sch (fine_init t) = Some s -> terminal_fine v w t s ->
+  length sch = 4 * length v + 3 * t + 2 /\ f_main s = MRet (pardot t v w).
+Proof. intros A v w t sch s Ht Hl HE HT. exact (sched_fine_deterministic_exec v w t Ht Hl sch s HE HT). Qed.
+Check sched_fine_deterministic : forall (A : Arith) (v w : list A) t sch s, 1 <= t -> length v = length w ->
+  exec_fine v w t sch (fine_init t) = Some s -> terminal_fine v w t s ->
+  length sch = 4 * length v + 3 * t + 2 /\ f_main s = MRet (pardot t v w).
+Print Assumptions sched_fine_deterministic.
+
+(* non-vacuity, binary64: after the three spawns the three workers advance in lock step, one micro-step each in turn
+   (load, load, multiply, add, publish): 4*3 + 3*3 + 2 = 23 steps *)
+Example sched_fine_deterministic_nonvacuous :
+  1 <= 3 /\ length cx_v = length cx_w /\ length cx_fine = 23 /\
+  exists s, exec_fine cx_v cx_w 3 cx_fine (fine_init 3) = Some s /\ terminal_fine cx_v cx_w 3 s /\
+            f_main s = MRet (pardot (A := AF) 3 cx_v cx_w).
+Proof. exact cx_fine_execution. Qed.
+
+Theorem sched_fine_refines : forall (A : Arith) (v w : list A) t sch s, 1 <= t -> length v = length w ->
+  exec_fine v w t sch (fine_init t) = Some s ->
+  exists sch', exec v w t sch' (sched_init t) = Some (abs_state s) /\ length sch' <= length sch.
+Proof. intros A v w t sch s Ht Hl HE. exact (sched_fine_refines_lemma v w t sch s Ht Hl HE). Qed.
+Check sched_fine_refines : forall (A : Arith) (v w : list A) t sch s, 1 <= t -> length v = length w ->
+  exec_fine v w t sch (fine_init t) = Some s ->
+  exists sch', exec v w t sch' (sched_init t) = Some (abs_state s) /\ length sch' <= length sch.
+Print Assumptions sched_fine_refines.
+
+Theorem sched_fine_terminates : forall (A : Arith) (v w : list A) t sch s, 1 <= t -> length v = length w ->
+  exec_fine v w t sch (fine_init t) = Some s -> length sch <= 4 * length v + 3 * t + 2.
+Proof. intros A v w t sch s Ht Hl HE. exact (sched_fine_bounded_exec v w t Ht Hl sch s HE). Qed.
+Check sched_fine_terminates : forall (A : Arith) (v w : list A) t sch s, 1 <= t -> length v = length w ->
+  exec_fine v w t sch (fine_init t) = Some s -> length sch <= 4 * length v + 3 * t + 2.
+Print Assumptions sched_fine_terminates.
+
+Theorem sched_fine_no_deadlock : forall (A : Arith) (v w : list A) t sch s, 1 <= t -> length v = length w ->
+  exec_fine v w t sch (fine_init t) = Some s ->
+  (exists th s', fire_fine v w t th s = Some s') \/ f_main s = MRet (pardot t v w).
+Proof. intros A v w t sch s Ht Hl HE. exact (sched_fine_no_deadlock_exec v w t Ht Hl sch s HE). Qed.
+Check sched_fine_no_deadlock : forall (A : Arith) (v w : list A) t sch s, 1 <= t -> length v = length w ->
+  exec_fine v w t sch (fine_init t) = Some s ->
+  (exists th s', fire_fine v w t th s = Some s') \/ f_main s = MRet (pardot t v w).
+Print Assumptions sched_fine_no_deadlock.
+
+Theorem sched_refines_run_sched : forall (A : Arith) (v w : list A) t s0 sch s,
+  par_program v w t = Ok s0 -> exec v w t sch s0 = Some s -> terminal v w t s ->
+  Permutation (completions v w t sch s0) (seq 0 t) /\
+  main s = MRet (run_sched (completions v w t sch s0) t v w).
+Proof. intros A v w t s0 sch s HP HE HT. exact (sched_refines_run_sched_lemma v w t s0 sch s HP HE HT). Qed.
+Check sched_refines_run_sched : forall (A : Arith) (v w : list A) t s0 sch s,
+  par_program v w t = Ok s0 -> exec v w t sch s0 = Some s -> terminal v w t s ->
+  Permutation (completions v w t sch s0) (seq 0 t) /\
+  main s = MRet (run_sched (completions v w t sch s0) t v w).
+Print Assumptions sched_refines_run_sched.
+
+Example sched_refines_run_sched_nonvacuous :
+  completions cx_v cx_w 3 cx_real1 (sched_init 3) = [0; 1; 2] /\
+  completions cx_v cx_w 3 cx_real3 (sched_init 3) = [0; 2; 1].
+Proof. exact cx_completions. Qed.
+
+Theorem sched_realises_every_order : forall (A : Arith) (v w : list A) t s0 sigma,
+  par_program v w t = Ok s0 -> Permutation sigma (seq 0 t) ->
+  exists sch s, exec v w t sch s0 = Some s /\ terminal v w t s /\ completions v w t sch s0 = sigma.
+Proof. intros A v w t s0 sigma HP HS. exact (sched_realises_every_order_lemma v w t s0 sigma HP HS). Qed.
+Check sched_realises_every_order : forall (A : Arith) (v w : list A) t s0 sigma,
+  par_program v w t = Ok s0 -> Permutation sigma (seq 0 t) ->
+  exists sch s, exec v w t sch s0 = Some s /\ terminal v w t s /\ completions v w t sch s0 = sigma.
+Print Assumptions sched_realises_every_order.
+
+(* the refuted variant: partial sums added into a shared total in COMPLETION order (seeded mutation C16-4) *)
+Theorem completion_order_refuted :
+  exists (v w : list AF) (t : nat) (sch1 sch2 : list tid) (s1 s2 : @sstate AF) (r1 r2 : AF),
+    1 <= t /\ length v = length w /\
+    exec_shared v w t sch1 (shared_init t) = Some s1 /\ terminal_shared v w t s1 /\ s_main s1 = MRet (Ok r1) /\
+    exec_shared v w t sch2 (shared_init t) = Some s2 /\ terminal_shared v w t s2 /\ s_main s2 = MRet (Ok r2) /\
+    r1 <> r2.
+Proof. exact completion_order_refuted_lemma. Qed.
+Check completion_order_refuted :
+  exists (v w : list AF) (t : nat) (sch1 sch2 : list tid) (s1 s2 : @sstate AF) (r1 r2 : AF),
+    1 <= t /\ length v = length w /\
+    exec_shared v w t sch1 (shared_init t) = Some s1 /\ terminal_shared v w t s1 /\ s_main s1 = MRet (Ok r1) /\
+    exec_shared v w t sch2 (shared_init t) = Some s2 /\ terminal_shared v w t s2 /\ s_main s2 = MRet (Ok r2) /\
+    r1 <> r2.
+Print Assumptions completion_order_refuted.
+Print Assumptions audit_separator.
+
+Theorem shared_result_in_completion_order : forall (A : Arith) (v w : list A) t sch s,
+  1 <= t -> length v = length w ->
+  exec_shared v w t sch (shared_init t) = Some s -> terminal_shared v w t s ->
+  Permutation (completions_shared v w t sch (shared_init t)) (seq 0 t) /\
+  s_main s = MRet (Ok (fold_left (fun acc k => add acc (dot_raw (slice_of v t k) (slice_of w t k)))
+                                 (completions_shared v w t sch (shared_init t)) zero)).
+Proof. intros A v w t sch s Ht Hl HE HT. exact (shared_result_exec v w t Ht Hl sch s HE HT). Qed.
+Check shared_result_in_completion_order : forall (A : Arith) (v w : list A) t sch s,
+  1 <= t -> length v = length w ->
+  exec_shared v w t sch (shared_init t) = Some s -> terminal_shared v w t s ->
+  Permutation (completions_shared v w t sch (shared_init t)) (seq 0 t) /\
+  s_main s = MRet (Ok (fold_left (fun acc k => add acc (dot_raw (slice_of v t k) (slice_of w t k)))
+                                 (completions_shared v w t sch (shared_init t)) zero)).
+Print Assumptions shared_result_in_completion_order.
+
+Example shared_result_in_completion_order_nonvacuous :
+  1 <= 3 /\ length cx_v = length cx_w /\
+  (exists s, exec_shared cx_v cx_w 3 cx_sch2 (shared_init 3) = Some s /\ terminal_shared cx_v cx_w 3 s) /\
+  completions_shared cx_v cx_w 3 cx_sch2 (shared_init 3) = [0; 2; 1].
+Proof. exact cx_shared_execution. Qed.
+
+Theorem shared_exact : forall (A : Arith), RingLaws A -> forall (v w : list A) t sch s,
+  1 <= t -> length v = length w ->
+  exec_shared v w t sch (shared_init t) = Some s -> terminal_shared v w t s -> s_main s = MRet (dot v w).
+Proof. intros A RL v w t sch s Ht Hl HE HT. exact (shared_exact_exec RL v w t sch s Ht Hl HE HT). Qed.
+Check shared_exact : forall (A : Arith), RingLaws A -> forall (v w : list A) t sch s,
+  1 <= t -> length v = length w ->
+  exec_shared v w t sch (shared_init t) = Some s -> terminal_shared v w t s -> s_main s = MRet (dot v w).
+Print Assumptions shared_exact.
+
+Theorem shared_two_workers_float : forall (v w : list AF) t sch s, 1 <= t -> t <= 2 -> length v = length w ->
+  exec_shared (A := AF) v w t sch (shared_init t) = Some s -> terminal_shared v w t s ->
+  s_main s = MRet (pardot (A := AF) t v w).
+Proof. intros v w t sch s Ht Ht2 Hl HE HT. exact (shared_two_workers_float_exec v w t sch s Ht Ht2 Hl HE HT). Qed.
+Check shared_two_workers_float : forall (v w : list AF) t sch s, 1 <= t -> t <= 2 -> length v = length w ->
+  exec_shared (A := AF) v w t sch (shared_init t) = Some s -> terminal_shared v w t s ->
+  s_main s = MRet (pardot (A := AF) t v w).
+Print Assumptions shared_two_workers_float.
+Print Assumptions audit_separator.
+
+Theorem pardot_any_workers_total : forall (A : Arith) t (v w : list A), 1 <= t -> length v = length w ->
+  (forall i, i < t -> exists a b, job v w t i = Ok (a, b) /\ length a = length b) /\
+  exists x, pardot t v w = Ok x.
+Proof. intros A t v w Ht Hl. exact (pardot_any_workers_total_lemma t v w Ht Hl). Qed.
+Check pardot_any_workers_total : forall (A : Arith) t (v w : list A), 1 <= t -> length v = length w ->
+  (forall i, i < t -> exists a b, job v w t i = Ok (a, b) /\ length a = length b) /\
+  exists x, pardot t v w = Ok x.
+Print Assumptions pardot_any_workers_total.
+
+(* non-vacuity: more workers than elements (chunk size 0: every worker but the last gets an empty slice) *)
+Example pardot_any_workers_total_nonvacuous :
+  1 <= 7 /\ length [q 1 2; q 3 1] = length [q 2 1; q 1 3] /\
+  jobs (A := AQ) [q 1 2; q 3 1] [q 2 1; q 1 3] 7
+    = Ok [([], []); ([], []); ([], []); ([], []); ([], []); ([], []); ([q 1 2; q 3 1], [q 2 1; q 1 3])] /\
+  pardot (A := AQ) 7 [q 1 2; q 3 1] [q 2 1; q 1 3] = Ok (q 2 1).
+Proof. repeat split; auto with arith. Qed.
+
+Theorem pardot_index_arith_in_range : forall (len t i : nat), 1 <= t -> i < t ->
+  0 <= t - 1 /\ t - 1 + 1 = t /\ i * (len / t) <= len /\ (i <> t - 1 -> (i + 1) * (len / t) <= len) /\
+  fst (chunk_bounds len t i) <= snd (chunk_bounds len t i) <= len.
+Proof. intros len t i Ht Hi. exact (pardot_index_arith_in_range_lemma len t i Ht Hi). Qed.
+Check pardot_index_arith_in_range : forall (len t i : nat), 1 <= t -> i < t ->
+  0 <= t - 1 /\ t - 1 + 1 = t /\ i * (len / t) <= len /\ (i <> t - 1 -> (i + 1) * (len / t) <= len) /\
+  fst (chunk_bounds len t i) <= snd (chunk_bounds len t i) <= len.
+Print Assumptions pardot_index_arith_in_range.
+
+Theorem pardot_outcomes : forall (A : Arith) t (v w : list A),
+  (length v <> length w -> pardot t v w = Panic Guard) /\
+  (length v = length w -> t = 0 -> pardot t v w = Panic DivZero) /\
+  (length v = length w -> 1 <= t -> exists x, pardot t v w = Ok x).
+Proof. intros A t v w. exact (pardot_outcomes_lemma t v w). Qed.
+Check pardot_outcomes : forall (A : Arith) t (v w : list A),
+  (length v <> length w -> pardot t v w = Panic Guard) /\
+  (length v = length w -> t = 0 -> pardot t v w = Panic DivZero) /\
+  (length v = length w -> 1 <= t -> exists x, pardot t v w = Ok x).
+Print Assumptions pardot_outcomes.
+
+Theorem sched_exact : forall (A : Arith), RingLaws A -> forall (v w : list A) t s0 n s,
+  par_program v w t = Ok s0 -> steps v w t n s0 s -> terminal v w t s -> main s = MRet (dot v w).
+Proof. intros A RL v w t s0 n s HP HS HT. exact (sched_exact_lemma A RL v w t s0 n s HP HS HT). Qed.
+Check sched_exact : forall (A : Arith), RingLaws A -> forall (v w : list A) t s0 n s,
+  par_program v w t = Ok s0 -> steps v w t n s0 s -> terminal v w t s -> main s = MRet (dot v w).
+Print Assumptions sched_exact.
+
+Theorem sched_exact_float : forall (v w : list AF) (zv zw : list Z) t s0 n s,
+  Forall2 ExactW v zv -> Forall2 ExactW w zw -> length zv = length zw -> (zadot zv zw < 2 ^ 53)%Z ->
+  par_program (A := AF) v w t = Ok s0 -> steps v w t n s0 s -> terminal v w t s ->
+  main s = MRet (dot (A := AF) v w).
+Proof.
+  intros v w zv zw t s0 n s Hv Hw Hl Hb HP HS HT.
+  exact (sched_exact_float_lemma v w zv zw t s0 n s Hv Hw Hl Hb HP HS HT).
+Qed.
+Check sched_exact_float : forall (v w : list AF) (zv zw : list Z) t s0 n s,
+  Forall2 ExactW v zv -> Forall2 ExactW w zw -> length zv = length zw -> (zadot zv zw < 2 ^ 53)%Z ->
+  par_program (A := AF) v w t = Ok s0 -> steps v w t n s0 s -> terminal v w t s ->
+  main s = MRet (dot (A := AF) v w).
+Print Assumptions sched_exact_float.
+Print Assumptions audit_separator.
+
+(* non-vacuity: integer-valued binary64 data (Proofs/ParDotFloat.v), 5 elements, 3 workers *)
+Example sched_exact_float_nonvacuous :
+  Forall2 ExactW ex_fv ex_zv /\ Forall2 ExactW ex_fw ex_zw /\ length ex_zv = length ex_zw /\
+  (zadot ex_zv ex_zw < 2 ^ 53)%Z /\ par_program (A := AF) ex_fv ex_fw 3 = Ok (sched_init 3) /\
+  exists s, steps (A := AF) ex_fv ex_fw 3 16 (sched_init 3) s /\ terminal (A := AF) ex_fv ex_fw 3 s.
+Proof. exact ex_float_execution. Qed.
+
+Theorem pardot_one_worker_float : forall (v w : list AF), length v = length w ->
+  pardot (A := AF) 1 v w = dot (A := AF) v w.
+Proof. intros v w Hl. exact (pardot_one_worker_float_lemma v w Hl). Qed.
+Check pardot_one_worker_float : forall (v w : list AF), length v = length w ->
+  pardot (A := AF) 1 v w = dot (A := AF) v w.
+Print Assumptions pardot_one_worker_float.
+Print Assumptions audit_separator.
+
+Theorem pardot_more_workers_float : forall t (v w : list AF), length v < t -> length v = length w ->
+  pardot (A := AF) t v w = dot (A := AF) v w.
+Proof. intros t v w Hlt Hl. exact (pardot_more_workers_float_lemma t v w Hlt Hl). Qed.
+Check pardot_more_workers_float : forall t (v w : list AF), length v < t -> length v = length w ->
+  pardot (A := AF) t v w = dot (A := AF) v w.
+Print Assumptions pardot_more_workers_float.
+Print Assumptions audit_separator.
+
+(* non-vacuity: 6 elements among which an infinity, a NaN, a negative zero, a subnormal and two products that overflow;
+   17 workers (one more than the machine of the tie has CPUs) *)
+Example pardot_more_workers_float_nonvacuous :
+  length ex_wild_v < 17 /\ length ex_wild_v = length ex_wild_w /\ is_ok (pardot (A := AF) 17 ex_wild_v ex_wild_w) = true.
+Proof. exact ex_wild_ok. Qed.
+
+Theorem sched_few_elements_float : forall (v w : list AF) t s0 n s, t = 1 \/ length v < t ->
+  par_program (A := AF) v w t = Ok s0 -> steps v w t n s0 s -> terminal v w t s ->
+  main s = MRet (dot (A := AF) v w).
+Proof. intros v w t s0 n s Hc HP HS HT. exact (sched_few_elements_float_lemma v w t s0 n s Hc HP HS HT). Qed.
+Check sched_few_elements_float : forall (v w : list AF) t s0 n s, t = 1 \/ length v < t ->
+  par_program (A := AF) v w t = Ok s0 -> steps v w t n s0 s -> terminal v w t s ->
+  main s = MRet (dot (A := AF) v w).
+Print Assumptions sched_few_elements_float.
+Print Assumptions audit_separator.
+
+(* ---- arbitrary data: equal "up to reassociation", standard model of floating-point arithmetic ---- *)
+From Coq Require Import Reals.
+From OV Require Import Proofs.VectorR Proofs.TridiagRound Proofs.ParSchedAccuracy.
+
+Theorem pardot_forward_error : forall (u : R), (0 <= u <= 1)%R -> forall fadd fsub fmul fdiv : R -> R -> R,
+  (forall x y : R, exists d : R, (Rabs d <= u)%R /\ fadd x y = ((x + y) * (1 + d))%R) ->
+  (forall x y : R, exists d : R, (Rabs d <= u)%R /\ fmul x y = (x * y * (1 + d))%R) ->
+  forall (t : nat) (v w : list R), 1 <= t -> length v = length w ->
+  exists r : R, pardot (A := ARnd fadd fsub fmul fdiv) t v w = Ok r /\
+    (Rabs (r - dot_raw (A := AR) v w)
+     <= ((1 + u) ^ (length v + t + 1) - 1) * dot_raw (A := AR) (map Rabs v) (map Rabs w))%R.
+Proof. intros u Hu fadd fsub fmul fdiv Hadd Hmul t v w Ht Hl. exact (pardot_forward_error_ex u Hu fadd fsub fmul fdiv Hadd Hmul t v w Ht Hl). Qed.
+Check pardot_forward_error : forall (u : R), (0 <= u <= 1)%R -> forall fadd fsub fmul fdiv : R -> R -> R,
+  (forall x y : R, exists d : R, (Rabs d <= u)%R /\ fadd x y = ((x + y) * (1 + d))%R) ->
+  (forall x y : R, exists d : R, (Rabs d <= u)%R /\ fmul x y = (x * y * (1 + d))%R) ->
+  forall (t : nat) (v w : list R), 1 <= t -> length v = length w ->
+  exists r : R, pardot (A := ARnd fadd fsub fmul fdiv) t v w = Ok r /\
+    (Rabs (r - dot_raw (A := AR) v w)
+     <= ((1 + u) ^ (length v + t + 1) - 1) * dot_raw (A := AR) (map Rabs v) (map Rabs w))%R.
+Print Assumptions pardot_forward_error.
+Print Assumptions audit_separator.
+
+(* non-vacuity: an inexact arithmetic in the model (every sum and product 25% too large, u = 1/2) *)
+Example pardot_forward_error_nonvacuous :
+  (0 <= / 2 <= 1)%R /\
+  (forall x y : R, exists d : R, (Rabs d <= / 2)%R /\ ((x + y) * (1 + / 4))%R = ((x + y) * (1 + d))%R) /\
+  (forall x y : R, exists d : R, (Rabs d <= / 2)%R /\ (x * y * (1 + / 4))%R = (x * y * (1 + d))%R).
+Proof. exact std_model_example. Qed.
+
+Theorem pardot_forward_error_tight : forall (u : R), (0 <= u <= 1)%R -> forall fadd fsub fmul fdiv : R -> R -> R,
+  (forall x y : R, exists d : R, (Rabs d <= u)%R /\ fadd x y = ((x + y) * (1 + d))%R) ->
+  (forall x y : R, exists d : R, (Rabs d <= u)%R /\ fmul x y = (x * y * (1 + d))%R) ->
+  forall (t : nat) (v w : list R), 1 <= t -> length v = length w ->
+  exists r : R, pardot (A := ARnd fadd fsub fmul fdiv) t v w = Ok r /\
+    (Rabs (r - dot_raw (A := AR) v w)
+     <= ((1 + u) ^ ((length v - (t - 1) * (length v / t)) + t + 1) - 1) * dot_raw (A := AR) (map Rabs v) (map Rabs w))%R.
+Proof. intros u Hu fadd fsub fmul fdiv Hadd Hmul t v w Ht Hl. exact (pardot_forward_error_tight_ex u Hu fadd fsub fmul fdiv Hadd Hmul t v w Ht Hl). Qed.
+Check pardot_forward_error_tight : forall (u : R), (0 <= u <= 1)%R -> forall fadd fsub fmul fdiv : R -> R -> R,
+  (forall x y : R, exists d : R, (Rabs d <= u)%R /\ fadd x y = ((x + y) * (1 + d))%R) ->
+  (forall x y : R, exists d : R, (Rabs d <= u)%R /\ fmul x y = (x * y * (1 + d))%R) ->
+  forall (t : nat) (v w : list R), 1 <= t -> length v = length w ->
+  exists r : R, pardot (A := ARnd fadd fsub fmul fdiv) t v w = Ok r /\
+    (Rabs (r - dot_raw (A := AR) v w)
+     <= ((1 + u) ^ ((length v - (t - 1) * (length v / t)) + t + 1) - 1) * dot_raw (A := AR) (map Rabs v) (map Rabs w))%R.
+Print Assumptions pardot_forward_error_tight.
+Print Assumptions audit_separator.
+
+Theorem dot_forward_error : forall (u : R), (0 <= u <= 1)%R -> forall fadd fsub fmul fdiv : R -> R -> R,
+  (forall x y : R, exists d : R, (Rabs d <= u)%R /\ fadd x y = ((x + y) * (1 + d))%R) ->
+  (forall x y : R, exists d : R, (Rabs d <= u)%R /\ fmul x y = (x * y * (1 + d))%R) ->
+  forall (v w : list R), length v = length w ->
+  exists r : R, dot (A := ARnd fadd fsub fmul fdiv) v w = Ok r /\
+    (Rabs (r - dot_raw (A := AR) v w)
+     <= ((1 + u) ^ (length v + 1) - 1) * dot_raw (A := AR) (map Rabs v) (map Rabs w))%R.
+Proof. intros u Hu fadd fsub fmul fdiv Hadd Hmul v w Hl. exact (dot_forward_error_ex u Hu fadd fsub fmul fdiv Hadd Hmul v w Hl). Qed.
+Check dot_forward_error : forall (u : R), (0 <= u <= 1)%R -> forall fadd fsub fmul fdiv : R -> R -> R,
+  (forall x y : R, exists d : R, (Rabs d <= u)%R /\ fadd x y = ((x + y) * (1 + d))%R) ->
+  (forall x y : R, exists d : R, (Rabs d <= u)%R /\ fmul x y = (x * y * (1 + d))%R) ->
+  forall (v w : list R), length v = length w ->
+  exists r : R, dot (A := ARnd fadd fsub fmul fdiv) v w = Ok r /\
+    (Rabs (r - dot_raw (A := AR) v w)
+     <= ((1 + u) ^ (length v + 1) - 1) * dot_raw (A := AR) (map Rabs v) (map Rabs w))%R.
+Print Assumptions dot_forward_error.
+Print Assumptions audit_separator.
+
+Theorem pardot_vs_dot_reassociation : forall (u : R), (0 <= u <= 1)%R -> forall fadd fsub fmul fdiv : R -> R -> R,
+  (forall x y : R, exists d : R, (Rabs d <= u)%R /\ fadd x y = ((x + y) * (1 + d))%R) ->
+  (forall x y : R, exists d : R, (Rabs d <= u)%R /\ fmul x y = (x * y * (1 + d))%R) ->
+  forall (t : nat) (v w : list R), 1 <= t -> length v = length w ->
+  exists rp rs : R, pardot (A := ARnd fadd fsub fmul fdiv) t v w = Ok rp /\ dot (A := ARnd fadd fsub fmul fdiv) v w = Ok rs /\
+    (Rabs (rp - rs)
+     <= (((1 + u) ^ (length v + t + 1) - 1) + ((1 + u) ^ (length v + 1) - 1)) * dot_raw (A := AR) (map Rabs v) (map Rabs w))%R.
+Proof. intros u Hu fadd fsub fmul fdiv Hadd Hmul t v w Ht Hl. exact (pardot_vs_dot_ex u Hu fadd fsub fmul fdiv Hadd Hmul t v w Ht Hl). Qed.
+Check pardot_vs_dot_reassociation : forall (u : R), (0 <= u <= 1)%R -> forall fadd fsub fmul fdiv : R -> R -> R,
+  (forall x y : R, exists d : R, (Rabs d <= u)%R /\ fadd x y = ((x + y) * (1 + d))%R) ->
+  (forall x y : R, exists d : R, (Rabs d <= u)%R /\ fmul x y = (x * y * (1 + d))%R) ->
+  forall (t : nat) (v w : list R), 1 <= t -> length v = length w ->
+  exists rp rs : R, pardot (A := ARnd fadd fsub fmul fdiv) t v w = Ok rp /\ dot (A := ARnd fadd fsub fmul fdiv) v w = Ok rs /\
+    (Rabs (rp - rs)
+     <= (((1 + u) ^ (length v + t + 1) - 1) + ((1 + u) ^ (length v + 1) - 1)) * dot_raw (A := AR) (map Rabs v) (map Rabs w))%R.
+Print Assumptions pardot_vs_dot_reassociation.
+Print Assumptions audit_separator.
+
+Theorem sched_forward_error : forall (u : R), (0 <= u <= 1)%R -> forall fadd fsub fmul fdiv : R -> R -> R,
+  (forall x y : R, exists d : R, (Rabs d <= u)%R /\ fadd x y = ((x + y) * (1 + d))%R) ->
+  (forall x y : R, exists d : R, (Rabs d <= u)%R /\ fmul x y = (x * y * (1 + d))%R) ->
+  forall (v w : list R) t s0 n s,
+  par_program (A := ARnd fadd fsub fmul fdiv) v w t = Ok s0 ->
+  steps (A := ARnd fadd fsub fmul fdiv) v w t n s0 s -> terminal (A := ARnd fadd fsub fmul fdiv) v w t s ->
+  exists r : R, main s = MRet (A := ARnd fadd fsub fmul fdiv) (Ok r) /\
+    (Rabs (r - dot_raw (A := AR) v w)
+     <= ((1 + u) ^ (length v + t + 1) - 1) * dot_raw (A := AR) (map Rabs v) (map Rabs w))%R.
+Proof.
+  intros u Hu fadd fsub fmul fdiv Hadd Hmul v w t s0 n s HP HS HT.
+  exact (sched_forward_error_ex u Hu fadd fsub fmul fdiv Hadd Hmul v w t s0 n s HP HS HT).
+Qed.
+Check sched_forward_error : forall (u : R), (0 <= u <= 1)%R -> forall fadd fsub fmul fdiv : R -> R -> R,
+  (forall x y : R, exists d : R, (Rabs d <= u)%R /\ fadd x y = ((x + y) * (1 + d))%R) ->
+  (forall x y : R, exists d : R, (Rabs d <= u)%R /\ fmul x y = (x * y * (1 + d))%R) ->
+  forall (v w : list R) t s0 n s,
+  par_program (A := ARnd fadd fsub fmul fdiv) v w t = Ok s0 ->
+  steps (A := ARnd fadd fsub fmul fdiv) v w t n s0 s -> terminal (A := ARnd fadd fsub fmul fdiv) v w t s ->
+  exists r : R, main s = MRet (A := ARnd fadd fsub fmul fdiv) (Ok r) /\
+    (Rabs (r - dot_raw (A := AR) v w)
+     <= ((1 + u) ^ (length v + t + 1) - 1) * dot_raw (A := AR) (map Rabs v) (map Rabs w))%R.
+Print Assumptions sched_forward_error.
+Print Assumptions audit_separator.
